@@ -296,3 +296,15 @@ def xsl_call(args):
         return str(_wrapper()(doc, fn=etree.XSLT.strparam(fn), arg=etree.XSLT.strparam(s)))
     except Exception as e:
         return ['ERR', type(e).__name__]
+
+
+# ---------------------------------------------------------------------------------------
+# unp stage: the whole unparser on a tree
+# ---------------------------------------------------------------------------------------
+def unparse_sx(t):
+    """xml sx -> unparsed text | ['ERR', kind]"""
+    from . import xmlsx
+    try:
+        return parser().unparse(xmlsx.from_sx(t))
+    except Exception as e:
+        return ['ERR', type(e).__name__]
